@@ -185,12 +185,44 @@ def _object_mutation(prefix):
     if not np.allclose(gotE, wantE, rtol=1e-12, atol=0):
         report(f"{prefix}:history:stale-after-error-edit", "after the error matrix of a used object was edited in place, change_pivot returns the matrix propagated from the OLD content",
                {"par": par, "pivot": p0, "new_pivot": p1})
+    # the documented default pivot is the origin for EVERY helix, whatever was done to another helix' pivot vector
+    d1 = p3.helix_obj(params=tuple(par)); d2 = p3.helix_obj(*par); n_eval += 1
+    try:
+        d1.pivot.x += 3.25; d1.pivot.z -= 1.5
+    except Exception:
+        pass
+    d3 = p3.helix_obj(params=tuple(par)); d4 = p3.helix_awk(ak.Array(np.array([par, par])))
+    if piv_of(d2) != [0.0, 0.0, 0.0] or piv_of(d3) != [0.0, 0.0, 0.0] or [float(d4.pivot[c][0]) for c in "xyz"] != [0.0, 0.0, 0.0]:
+        report(f"{prefix}:history:default-pivot-shared", f"after `h.pivot.x += 3.25` on ONE default-pivot helix: another existing helix reports pivot {piv_of(d2)}, a new one {piv_of(d3)}, "
+               f"a new array {[float(d4.pivot[c][0]) for c in 'xyz']} (the default pivot is the origin)", {"par": par})
     f = obj(new, p0); a, b = h.change_pivot(*p1), f.change_pivot(*p1)
     got = pars(a) + [h.radius, h.momentum.pt, h.momentum.phi, h.momentum.pz, h.position.x, h.position.y, h.position.z, h.charge]
     want = pars(b) + [f.radius, f.momentum.pt, f.momentum.phi, f.momentum.pz, f.position.x, f.position.y, f.position.z, f.charge]
     if any(abs(g - w) > 1e-12 * (1 + abs(w)) for g, w in zip(got, want)):
         report(f"{prefix}:history:stale-after-attribute-update:{FIELDS5[k]}", f"after h.{FIELDS5[k]} = {new[k]!r} the object gives {got}, a fresh object with the same numbers {want}",
                {"par": par, "pivot": p0, "new_pivot": p1, "attribute": FIELDS5[k], "value": new[k]})
+
+def _large_array(prefix):
+    """more tracks than any internal block size (70 001, not a multiple of a power of two): every track, the last ones included,
+    equals the object move; error matrices too"""
+    global n_eval
+    n = 70001; bump("layout:large-flat")
+    base = [gen_helix() for _ in range(7)]; E7 = [gen_error() for _ in range(7)]; p0, p1 = gen_pivot("near"), gen_pivot("near")
+    idx = np.arange(n) % 7
+    cols = {c: ak.Array(np.array([b[k] for b in base])[idx]) for k, c in enumerate(FIELDS5)}
+    ha = p3.helix_awk(**cols, error=ak.Array(np.array(E7)[idx]), pivot=tuple(p0)); out = ha.change_pivot(*p1); n_eval += n
+    refs = [obj(base[j], p0, E7[j]).change_pivot(*p1) for j in range(7)]
+    flat = {f: ak.to_numpy(out[f]) for f in FIELDS5}; eo = ak.to_numpy(out.error)
+    for j in range(7):
+        sel = np.nonzero(idx == j)[0]; sc = scale(base[j], p0, p1)
+        for f, w in zip(FIELDS5, pars(refs[j])):
+            bad = np.nonzero(np.abs(flat[f][sel] - w) > 1e-9 * sc * (1 + abs(base[j][4])))[0]
+            if bad.size:
+                report(f"{prefix}:array-differs-from-object:large-array:{f}", f"track {int(sel[bad[0]])} of {n}: {f} = {flat[f][sel[bad[0]]]!r}, object {w!r} ({bad.size} tracks differ)", {"n_tracks": n, "track": int(sel[bad[0]])}); break
+        d = np.abs(eo[sel] - np.asarray(refs[j].error)[None, :, :]).reshape(len(sel), -1).max(axis=1)
+        bad = np.nonzero(d > 1e-9 * (1 + np.abs(np.asarray(refs[j].error)).max()))[0]
+        if bad.size:
+            report(f"{prefix}:error-differs-from-object:large-array", f"track {int(sel[bad[0]])} of {n}: propagated error matrix differs from the object's ({bad.size} tracks)", {"n_tracks": n, "track": int(sel[bad[0]])})
 
 def _reordered_views(prefix):
     """helix arrays (with error matrices) whose tracks / events are re-ordered or selected by an index, inside events, across events,
@@ -263,6 +295,14 @@ def _isclose_boundary(prefix):
             if bool(ga[j]) != wo or wr != wo:
                 report(f"{prefix}:array-differs-from-object:isclose:tolerance-boundary", f"track {j} ({lab}, field {FIELDS5[k]}, rtol={rt}, atol={at}): array {bool(ga[j])}, record {wr}, object {wo}",
                        {"a": A[j], "b": B[j], "pivot": p0, "rtol": rt, "atol": at}); break
+    # NaN in the error matrix (a fit without covariance) with equal_nan=True / False: array, record and object agree
+    En = np.full((5, 5), np.nan); a1 = P[0]          # (a partly-NaN matrix becomes all NaN when it is moved: only the all-NaN one can compare equal)
+    for eqn in (True, False):
+        wo = bool(obj(a1, p0, En).isclose(obj(a1, p0, En), equal_nan=eqn)); n_eval += 1
+        wa = bool(ak.to_numpy(awk([a1, a1], [p0, p0], [En, En]).isclose(awk([a1, a1], [p0, p0], [En, En]), equal_nan=eqn))[1])
+        wr = bool(awk([a1], [p0], [En])[0].isclose(awk([a1], [p0], [En])[0], equal_nan=eqn))
+        if not (wo == wa == wr):
+            report(f"{prefix}:array-differs-from-object:isclose:nan-error-matrix", f"error matrix holding NaN, equal_nan={eqn}: array {wa}, record {wr}, object {wo}", {"par": a1, "pivot": p0, "equal_nan": eqn})
     # with error matrices on both sides as well (records and objects)
     E = gen_error(); a0 = P[0]; b0 = list(a0); b0[3] = a0[3] + 1e-7
     wo = bool(obj(a0, p0, E).isclose(obj(b0, p0, E))); wr = bool(awk([a0], [p0], [E])[0].isclose(awk([b0], [p0], [E])[0])); n_eval += 1
@@ -294,6 +334,7 @@ isclose_boundary = _guarded(_isclose_boundary, "isclose-boundary")
 reuse_history = _guarded(_reuse_history, "history")
 object_mutation = _guarded(_object_mutation, "history-object")
 reordered_views = _guarded(_reordered_views, "reordered")
+large_array = _guarded(_large_array, "large-array")
 
 # ------------------------------------------------------------------------------------------------ validate
 def do_validate():
@@ -415,6 +456,8 @@ def do_c11():
         par, p0 = (cc[0], cc[1]) if cc else (gen_helix(), gen_pivot())
         fe = rng.choice(["obj", "rec", "arr"]); q = "pos" if par[2] > 0 else "neg"
         E = gen_error() if rng.random() < 0.5 else None
+        if E is not None and i % 7 == 3:      # an integer-typed covariance is the same matrix
+            A_ = np.array([[rng.randrange(-3, 4) for _ in range(5)] for _ in range(5)], dtype=np.int64); E = A_ @ A_.T + np.diag([1, 2, 3, 4, 5])
         seq = [cc[2]] if cc else [gen_pivot() for _ in range(rng.randrange(1, 5))]
         if not cc and i % 8 == 0: seq[rng.randrange(len(seq))] = near_centre_pivot(par, p0)
         if i % 10 == 0: int_columns_move("C11")
@@ -547,6 +590,17 @@ def _call_forms(par, p0, E, p1):
         ho = p3.helix_obj(momentum=ref.momentum, position=ref.position, charge=ref.charge, pivot=tuple(p0)); wo = pars(ho) + piv_of(ho)
         if any(abs(wrap(g - w)) > 1e-9 if k == 1 else abs(g - w) > 1e-9 * (1 + abs(w)) for k, (g, w) in enumerate(zip(back, wo))):
             report(f"C13:constructor-forms-differ:helix_awk:physics:{pname}-pivot", f"helix_awk(momentum, position, charge, pivot={pname}) gives {back}, helix_obj from the same numbers {wo}", {"par": par, "pivot": p0})
+    # the array kind reports one position / momentum RECORD per track, nested like the tracks (events x tracks here)
+    rg = p3.helix_awk(ak.unflatten(raw, [1, 0, 1]), pivot=tuple(p0)); n_eval += 1
+    for qn, q, keys in (("position", rg.position, "xyz"), ("momentum", rg.momentum, ("pt", "phi", "pz"))):
+        lst = ak.to_list(q)
+        ok = isinstance(lst, list) and [len(e) if isinstance(e, list) else None for e in lst] == [1, 0, 1] and all(isinstance(t, dict) and set(t) == set(keys) for e in lst for t in e)
+        if not ok or q.ndim != 2:
+            report(f"C13:container-forms-differ:array-{qn}-structure", f"{qn} of an events x tracks helix array has type {str(q.type)[:100]}: not one {qn} record per track", {"par": par, "pivot": p0})
+        else:
+            single = rg[2][0]; sq = getattr(single, qn)
+            if any(abs(float(lst[2][0][k]) - float(sq[k])) > 1e-12 * (1 + abs(float(sq[k]))) for k in keys):
+                report(f"C13:container-forms-differ:array-{qn}-vs-record", f"array.{qn}[2][0] = {lst[2][0]}, array[2][0].{qn} = {ak.to_list(sq)}", {"par": par, "pivot": p0})
     # the record kind: a helix record's own reported position / momentum / charge / pivot rebuild it (through helix_obj)
     bump("callform:record-physics"); n_eval += 1
     rec = aa[1]
@@ -884,6 +938,7 @@ def do_c07():
         if i % 6 == 0: int_columns_move("C07")
         if i % 2 == 0: isclose_boundary("C07")
         if i % 4 == 0: reordered_views("C07")
+        if i == 0: large_array("C07")
         if i % 5 == 0: reuse_history("C07")
         if i % 7 == 0: named_pivot_forms("C07")
         # permutation equivariance on the flat layout
@@ -913,6 +968,7 @@ def do_c12():
             t = rng.choice([1.0, rng.uniform(-3, 3)]); bump("pivot:radial")
             p1 = [p0[0] + t * par[0] * math.cos(par[1]) + (0 if t == 1.0 else t * math.cos(par[1])), p0[1] + t * par[0] * math.sin(par[1]) + (0 if t == 1.0 else t * math.sin(par[1])), p0[2] + rng.uniform(-2, 2)]
         if i % 10 == 0: reuse_history("C12"); object_mutation("C12")
+        if i == 0: large_array("C12")
         if i % 25 == 0: reordered_views("C12")
         c = centre(par, p0)
         if math.hypot(c[0] - p1[0], c[1] - p1[1]) < 0.5: continue
